@@ -1,6 +1,6 @@
 From GM Require Import Base.Prelude Base.Outcome Codec.Packets Engine.Model Engine.Instance
   Client.Backoff Client.Impl Client.Driver Client.MiniEngine Client.ImplEngine
-  ClientProofs.ImplP ClientProofs.LifecycleW Properties.C12.
+  ClientProofs.ImplP ClientProofs.LifecycleW ClientProofs.EngineFactsP Properties.C12.
 Open Scope N_scope.
 Check C12_transition_table : forall cur des stop, cost cur des stop = cost_spec cur des stop.
 Check C12_transition_table_complete :
@@ -39,6 +39,20 @@ Check C12_stop_stops :
   exists evs, d_log s' = d_log s ++ evs /\
               count_stopped evs = (if cstate_eqb (cur s) CStopped then 0 else 1)%nat /\
               existsb is_attempt_ev evs = false.
+Check C12_stop_stops_two_events :
+  forall E U D e_tag e_user e_disc e_reset e_opened e_closed e_data e_wc e_service e_nst,
+  engine_facts E U D e_tag e_user e_disc e_reset e_opened e_closed e_data e_wc e_service ->
+  forall thr e0 bc timeout, e_tag e0 = TDisconnected -> forall h now now' d,
+  let s := reach E U D e_tag e_user e_disc e_reset e_opened e_closed e_data e_wc e_service e_nst thr e0 bc timeout h in
+  d_status s = Running -> d_flush s = false -> d_pos s = 0 ->
+  c_stop (handle_op E U D e_tag e_user e_disc e_reset (d_c s) now (OpStop d)) <> SDisc ->
+  let s2 := dstep E U D e_tag e_user e_disc e_reset e_opened e_closed e_data e_wc e_service e_nst thr
+              (dstep E U D e_tag e_user e_disc e_reset e_opened e_closed e_data e_wc e_service e_nst thr s now (DOp (OpStop d)))
+              now' DCheck in
+  d_status s2 = Running /\ cur s2 = CStopped /\ c_des (d_c s2) = CStopped /\
+  exists evs, d_log s2 = d_log s ++ evs /\
+              count_stopped evs = (if cstate_eqb (cur s) CStopped then 0 else 1)%nat /\
+              existsb is_attempt_ev evs = false.
 Check C12_stop_waits_only_when_established :
   forall E U D e_tag e_user e_disc e_reset e_opened e_closed e_data e_wc e_service e_nst,
   engine_facts E U D e_tag e_user e_disc e_reset e_opened e_closed e_data e_wc e_service ->
@@ -63,6 +77,8 @@ Check C12_close_terminal :
   d_status s' = Exited /\
   existsb is_attempt_ev (skipn (length (d_log s)) (d_log s')) = false /\
   drun E U D e_tag e_user e_disc e_reset e_opened e_closed e_data e_wc e_service e_nst thr s' k = s'.
+Check C12_engine_model_opened : forall cfg e now dl,
+  fact_opened (ie_tag e) (is_ok (snd (ie_opened cfg e now dl))) (ie_tag (fst (ie_opened cfg e now dl))) = true.
 Print Assumptions C12_transition_table.
 Print Assumptions C12_transition_table_complete.
 Print Assumptions C12_event_grammar.
@@ -71,6 +87,8 @@ Print Assumptions C12_loop_alive_huge_timeout.
 Print Assumptions C12_deadline_total.
 Print Assumptions C12_stop_during_handshake_stops.
 Print Assumptions C12_stop_stops.
+Print Assumptions C12_stop_stops_two_events.
 Print Assumptions C12_stop_waits_only_when_established.
 Print Assumptions C12_restartable.
 Print Assumptions C12_close_terminal.
+Print Assumptions C12_engine_model_opened.
